@@ -17,7 +17,7 @@ import (
 // Inputs: every witness and every prefix (<=600); every ordered pair of
 // witnesses concatenated and overlaid; all byte strings <= 2; x limits
 // {0, 3072, len, len/2}; on the built-in tree and on trees enlarged by Extend
-// histories (C14 explores histories exhaustively; here a fixed set of 8).
+// histories (C14 explores histories exhaustively; here a fixed set of 10, two of which contain a detector that calls SetLimit while the walk is in progress).
 func init() { Registry["C03"] = &Check{Setup: c03Setup, Run: c03Run} }
 
 var c03Trees = [][]extOp{
@@ -29,6 +29,8 @@ var c03Trees = [][]extOp{
 	{{Attach: 0, Pred: 5}, {Attach: 2, Pred: 7}},    // root <- contains NUL ; text <- limit==0
 	{{Attach: 1, Pred: 1, Aliases: 2}},              // root(lookup) <- always: everything is x/e1
 	{{Attach: 6, Pred: 1}, {Attach: 7, Pred: 6}},    // png <- always ; pdf <- empty
+	{{Attach: 0, Pred: 8}},                          // root <- detector that calls SetLimit(0) and rejects
+	{{Attach: 2, Pred: 9}, {Attach: 0, Pred: 8}},    // text/plain <- SetLimit(5) rejects ; root <- SetLimit(0) rejects
 }
 
 var c03Cur *treeModel
